@@ -1,3 +1,5 @@
+//go:build !sched
+
 package checks
 
 import (
